@@ -13,7 +13,10 @@ def setup():
     failed = common.regenerate()
     for name, err in failed:
         print(f'setup: translator {name} failed: {err}')
-    ok, log = common.coq_make([], timeout=3000)
+    import json
+    man = json.load(open(os.path.join(common.VERIF, 'MANIFEST.json')))
+    targets = [f"props/{c['property_id']}.vo" for c in man['checks']]
+    ok, log = common.coq_make(targets, timeout=3000)
     if not ok:
         print(log[-4000:])
         print('setup: coq build FAILED')
